@@ -45,21 +45,39 @@ MODEL_CALLERS = {1: {"kind": "I", "zone": 1, "mr": 1, "wfr": False, "prio": 2},
                  2: {"kind": "RQ", "zone": 2, "mr": 1, "wfr": True, "prio": 2}}
 
 
-def _replay(beh) -> dict:
+MODEL_CALLERS3 = {1: {"kind": "I", "zone": 1, "mr": 1, "wfr": False, "prio": 2},
+                  2: {"kind": "RQ", "zone": 2, "mr": 1, "wfr": True, "prio": 2},
+                  3: {"kind": "RQ", "zone": 3, "mr": 0, "wfr": False, "prio": 0}}
+
+
+def _replay(arg) -> dict:
     from harness import fakes, qos_director
     fakes.quiet_logging()
+    beh, callers = arg
     try:
-        return qos_director.replay_behaviour(beh, MODEL_CALLERS)
+        return qos_director.replay_behaviour(beh, callers)
     except BaseException as err:  # noqa: BLE001
         return {"harness_error": f"{type(err).__name__}: {err}"}
 
 
 def model_check(tier: str) -> dict:
     """TLC on the implementation-shaped model of the current code (all repair flags on)."""
-    cfg = "MC_QosFsm_live.cfg" if tier == "quick" else "MC_QosFsm_deep.cfg"  # live = safety + Live + NoWriteAfterAnswer
-    r = tlc.run_tlc("MC_QosFsm", cfg, workers=8 if tier == "quick" else 12, timeout=3000)
-    return {"cfg": cfg, "ok": r.ok, "violated": r.violated, "states": r.distinct, "transitions": r.states,
-            "depth": r.depth, "wall_s": round(r.wall_s, 1), "errors": r.errors[:3]}
+    # live = safety invariants + liveness (Live) + the C08d action property
+    runs = [("MC_QosFsm", "MC_QosFsm_live.cfg")]
+    if tier == "thorough":
+        runs += [("MC_QosFsm", "MC_QosFsm_deep.cfg"), ("MC_QosFsm3", "MC_QosFsm3.cfg")]
+    out = {"instances": [], "ok": True, "violated": [], "states": 0, "transitions": 0, "errors": []}
+    for mod, cfg in runs:
+        r = tlc.run_tlc(mod, cfg, workers=8 if tier == "quick" else 12, timeout=3000)
+        out["instances"].append({"cfg": cfg, "ok": r.ok, "violated": r.violated, "states": r.distinct,
+                                 "transitions": r.states, "depth": r.depth, "wall_s": round(r.wall_s, 1)})
+        out["ok"] = out["ok"] and r.ok
+        out["violated"] += [f"{cfg}:{v}" for v in r.violated]
+        out["errors"] += r.errors[:2]
+        out["states"] += r.distinct
+        out["transitions"] += r.states
+    out["cfg"] = ",".join(c for _, c in runs)
+    return out
 
 
 def spec_to_code(tier: str, seed: int) -> tuple[list[dict], int]:
@@ -70,12 +88,14 @@ def spec_to_code(tier: str, seed: int) -> tuple[list[dict], int]:
     d = tempfile.mkdtemp(prefix="vqsim_")
     try:
         behs = []
-        for k, cfg in enumerate(["MC_QosFsm_fixed.cfg", "MC_QosFsm_deep.cfg"]):
-            r = tlc.run_tlc("MC_QosFsm", cfg, simulate=f"file={d}/tr{k}_,num={n // 2}", depth=80, seed=seed + 1 + k,
+        srcs = [("MC_QosFsm", "MC_QosFsm_fixed.cfg", MODEL_CALLERS), ("MC_QosFsm", "MC_QosFsm_deep.cfg", MODEL_CALLERS),
+                ("MC_QosFsm3", "MC_QosFsm3.cfg", MODEL_CALLERS3)]
+        for k, (mod, cfg, callers) in enumerate(srcs):
+            r = tlc.run_tlc(mod, cfg, simulate=f"file={d}/tr{k}_,num={n // len(srcs)}", depth=100, seed=seed + 1 + k,
                             workers=1, timeout=1200)
             if r.errors or r.violated:
                 raise tlc.MachineryFailure(f"TLC -simulate failed: {r.violated} {r.errors[:2]}")
-            behs += tlc.read_sim_traces(f"{d}/tr{k}_")
+            behs += [(b, callers) for b in tlc.read_sim_traces(f"{d}/tr{k}_")]
     finally:
         shutil.rmtree(d, ignore_errors=True)
     if len(behs) < 8:
